@@ -10,6 +10,7 @@ A script is a list of ops:
     ["backup"]                                 ctx.backup_db()
     ["override", input, how, rows]             how = "analyze": analyze_and_overwrite_pages(ctx, [input], True, None)
                                                how = "process_dump": process_dump(ctx, <unused>, None, [input], True)
+                                               how = "overwrite_pages": overwrite_pages(ctx, [input], True)  (no backup)
                                                rows = the writes the input asks for (read by the reference model only)
     ["read"]                                   list(ctx.get_all_pages())
     ["close"]                                  ctx.close_db_conn()
@@ -34,6 +35,9 @@ SIDE = ["pages.db", "pages.db-wal", "pages.db-shm", "pages_backup.db", "pages_ba
 
 KINDS = ["override-json", "plain-backup", "restore-killed", "process-dump", "double-backup",
          "no-backup", "override-dir", "rerun-override"]
+
+# large pages, ONE big uncommitted overwrite transaction (bigger than SQLite's page cache); kill points sampled
+BULK_KINDS = ["bulk-overwrite", "bulk-overwrite-backup"]
 
 NS_PREFIX = {10: "Template:", 0: "", 828: "Module:", 14: "Category:", 100: "Appendix:"}
 ALPHA = "abcdefghijklmnopqrstuvwxyz" * 3 + "ABCDEXYZ" + "     \n\n" + "{}[]|='*#:;&\"%" + "äßéю語字🙂"
@@ -130,8 +134,54 @@ def adds(rows):
     return [["add", r] for r in rows]
 
 
+def big_body(rng, tag, lo, hi):
+    n = rng.randint(lo, hi)
+    chunk = "".join(rng.choice(ALPHA) for _ in range(211))
+    return (tag + " " + chunk * (n // 211 + 1))[:n]
+
+
+def gen_bulk_scenario(rng, kind):
+    """200-260 pages of 12-20 kB; every page overwritten (14-24 kB) by ONE overwrite_pages() call = one
+    transaction of 3-6 MB that is committed only by the last line of overwrite_pages()."""
+    n = rng.randint(200, 260)
+    init = []
+    for i in range(n):
+        ns = rng.choice([0, 0, 10, 828, 100])
+        model = "Scribunto" if ns == 828 else "wikitext"
+        init.append([NS_PREFIX[ns] + rand_name(rng, i), ns, big_body(rng, "V1 %d" % i, 12000, 20000), None, model])
+    start = rng.choice(["closed", "killed"])
+    s0 = [["open"]] + adds(init) + [["commit"]]
+    if start == "closed":
+        s0.append(["close"])
+    order = list(init)
+    rng.shuffle(order)
+    rows = [[p[0], p[1], big_body(rng, "V2", 14000, 24000), None, p[4]] for p in order]
+    for i in range(rng.randint(0, 5)):
+        rows.insert(rng.randrange(len(rows) + 1), ["bulknew %d" % i, 0, big_body(rng, "N", 100, 20000), None, "wikitext"])
+    inputs = {"ov1": make_input("ov1", rows, False)}
+    close = rng.random() < 0.5
+    tags = {"kind": kind, "start": start, "close": close, "bulk_pages": n,
+            "bulk_bytes_MB": round(sum(len(r[2]) for r in rows) / 1e6, 1)}
+    v = [["open"]]
+    if kind == "bulk-overwrite-backup":
+        if rng.random() < 0.5:
+            v += [["backup"], ["override", "ov1", "overwrite_pages", rows]]
+            tags["how"] = "backup_db+overwrite_pages"
+        else:
+            v.append(["override", "ov1", "analyze", rows])
+            tags["how"] = "analyze"
+    else:
+        v.append(["override", "ov1", "overwrite_pages", rows])
+        tags["how"] = "overwrite_pages"
+    if close:
+        v.append(["close"])
+    return {"kind": kind, "tags": tags, "setup": [s0], "victim": v, "inputs": inputs, "npages": n}
+
+
 def gen_scenario(rng, kind, scale):
     """scale: rough number of pages (small in quick, larger in thorough)."""
+    if kind in BULK_KINDS:
+        return gen_bulk_scenario(rng, kind)
     n = rng.randint(max(3, scale // 2), scale)
     init = gen_pages(rng, n)
     start = rng.choice(["closed", "killed", "mixed"])
@@ -349,6 +399,8 @@ def run_script(script, dbpath, indir, input_types, mark, point=None):
             p = input_path(input_types[op[1]], indir, op[1])
             if op[2] == "analyze":
                 DP.analyze_and_overwrite_pages(ctx, [p], True, None)
+            elif op[2] == "overwrite_pages":
+                DP.overwrite_pages(ctx, [p], True)
             else:
                 DP.process_dump(ctx, "/nonexistent/dump.xml.bz2", None, [p], True)
         elif k == "read":
